@@ -42,7 +42,8 @@ inductive Ty where
   | ptr (e : Ty)
   | chan (dir : Nat) (e : Ty)            -- dir: 1 recv, 2 send, 3 both (reflect.ChanDir)
   | func (sig : String)                  -- identity by signature text
-  | strct (fs : Tys)
+  /-- an unnamed struct type; `vms`/`pms`: methods promoted from embedded fields into the method set of `T` / `*T` -/
+  | strct (vms pms : List String) (fs : Tys)
   | iface (meths : List String)          -- method = "Name|signature"
   /-- a defined type: name, method set of `T`, method set of `*T`, underlying type -/
   | named (name : String) (vms pms : List String) (u : Ty)
@@ -85,7 +86,7 @@ def Ty.kind : Ty → Kind
   | .ptr _ => .ptr
   | .chan _ _ => .chan
   | .func _ => .func
-  | .strct _ => .strct
+  | .strct _ _ _ => .strct
   | .iface _ => .iface
   | .named _ _ _ u => u.kind
 
@@ -96,7 +97,7 @@ mutual
 def Ty.align : Ty → Nat
   | .prim p => p.align
   | .arr _ e => e.align
-  | .strct fs => fs.maxAlign
+  | .strct _ _ fs => fs.maxAlign
   | .named _ _ _ u => u.align
   | _ => 8
 def Tys.maxAlign : Tys → Nat
@@ -112,7 +113,7 @@ def Ty.size : Ty → Nat
   | .arr n e => n * e.size
   | .slice _ => 24
   | .iface _ => 16
-  | .strct fs =>
+  | .strct _ _ fs =>
       let e := fs.endOff 0
       let e' := if e.2 && e.1 > 0 then e.1 + 1 else e.1
       roundUp e' fs.maxAlign
@@ -139,6 +140,8 @@ def Ty.hasName : Ty → Bool
 def Ty.methodSet : Ty → List String
   | .named _ v _ _ => v
   | .ptr (.named _ _ p _) => p
+  | .strct v _ _ => v
+  | .ptr (.strct _ p _) => p
   | .iface ms => ms
   | _ => []
 
@@ -210,7 +213,7 @@ mutual
 def zeroVal : Ty → Val
   | .prim p => p.zero
   | .arr n e => .agg (Vals.repl n (zeroVal e))
-  | .strct fs => .agg (zeroVals fs)
+  | .strct _ _ fs => .agg (zeroVals fs)
   | .iface _ => .ifaceNil
   | .named _ _ _ u => zeroVal u
   | _ => .nilp
@@ -262,7 +265,7 @@ def Ty.isDirect : Ty → Bool
   | .ptr _ | .map _ _ | .chan _ _ | .func _ => true
   | .prim p => p == .unsafePointer
   | .arr n e => n == 1 && e.isDirect
-  | .strct fs => fs.isDirect1
+  | .strct _ _ fs => fs.isDirect1
   | .named _ _ _ u => u.isDirect
   | _ => false
 def Tys.isDirect1 : Tys → Bool
@@ -485,6 +488,16 @@ inductive PairRet where
   | list (bs : List Boxed)
   deriving DecidableEq, Repr
 
+/-- `[]interface{}` -/
+def isAnySlice (t : Ty) : Bool := decide (t = .slice (.iface []))
+
+/-- A bare value is written `.one`; Go cannot tell a bare value whose dynamic type is `[]interface{}` from the list
+    form (`v.Return.([]interface{})` succeeds), so such a value IS the list form: goom's documented flattening
+    ("如果是多参可使用[]interface{}", mocker.go:554).  `.one` therefore never carries a `[]interface{}`. -/
+def PairRet.WF : PairRet → Prop
+  | .one (some (t, _)) => isAnySlice t = false
+  | _ => True
+
 /-- `when.go:181-184` (Matches) and `:200-203` (Returns):
     `results, ok := v.Return.([]interface{}); if !ok { results = []interface{}{v.Return} }` —
     a bare value, **nil included**, is a single result. -/
@@ -524,5 +537,21 @@ def seqCall (stored : List (List RV)) (outs : List Ty) (i : Nat) : CallRes :=
     else match deliver vs outs with
       | none => .callPanic
       | some rs => .got rs
+
+/-! ## `When(x₁ … x_k)` / `arg.In(…)`: the values an argument is compared against -/
+
+/-- `matcher.go:93 newDefaultMatch` → `arg/value.go:116 ToExpr` → `arg/expr.go:40 EqualsExpr.Resolve`: every supplied
+    value is converted by `toValue` at the declared type of ITS position (for a variadic function the tail positions
+    have the element type, `matcher.go:95-100`); the first failing position is the configuration-time panic.  The stored
+    values are what a call's arguments are compared against.  An `arg.In(v₁ … v_k)` on a one-parameter function resolves
+    each `v_i` the same way (`arg/expr.go:69 InExpr.Resolve`), afresh for every function it is used on. -/
+def whenConfigure (K : KindLists) : List (Boxed × Ty) → Res (List RV)
+  | [] => .ok []
+  | (b, t) :: rest =>
+    match toValue K b t with
+    | .error e => .error e
+    | .ok v => match whenConfigure K rest with
+      | .error e => .error e
+      | .ok vs => .ok (v :: vs)
 
 end Convert
